@@ -136,3 +136,18 @@ def run_case(rng, tier, case):
         elif cls == 'storage':
             case.check('split.storage_coupled_not_above_unsplit', v_split <= v_un + tolv * (1 + abs(v_un)), nonvacuous=n_int >= 2, split=v_split, unsplit=v_un, interval=size)
     case.nontrivial = n_int >= 2 and flowed
+
+
+def _is_f43(v, rec):
+    # Storage with block_size: the block boundaries are generated with pd.date_range(start = window start - one block, freq = block_size) in the grid's
+    # zone; if the (interval) grid starts in the hour after the spring-forward gap, a calendar-day step from "start - 1 day" lands on the wall-clock
+    # time that does not exist on the switch day -> pandas raises NonExistentTimeError inside the storage set-up (the unsplit horizon works)
+    if v.get('clause') != 'split.setup_works' or 'NonExistentTimeError' not in str(v.get('error', '')):
+        return False
+    spec = ((rec.get('spec') or {}).get('spec') or {})
+    def has_blocks(a):
+        return bool(a.get('block_size')) or any(has_blocks(x) for x in a.get('assets', [])) or ('base' in a and has_blocks(a['base']))
+    return any(has_blocks(a) for a in spec.get('assets', []))
+
+
+CLASSIFIERS = {'c14_block_storage_interval_starts_after_dst_gap': _is_f43}
